@@ -1,5 +1,10 @@
 use crate::intermediate::{Var, IR};
+#[cfg(not(sylt_verif))]
 use std::{collections::HashMap, io::Write};
+#[cfg(sylt_verif)]
+use std::io::Write;
+#[cfg(sylt_verif)]
+use sylt_common::verif_hash::HashMap;
 
 macro_rules! write {
     ($out:expr, $msg:expr ) => {
